@@ -18,8 +18,9 @@ Now == DaysFromCivil(2025, 1, 1)
 NoNc == [perm |-> <<>>, excl |-> <<>>]
 NoPl == [k |-> "none", n |-> 0]
 Pl(n) == [k |-> "some", n |-> n]
-Dns(l) == [v |-> "dns", labels |-> l, b |-> <<>>, p |-> 0]
-Ip(b, p) == [v |-> "ip", labels |-> <<>>, b |-> b, p |-> p]
+Dns(l) == [v |-> "dns", labels |-> l, b |-> <<>>, p |-> 0, dot |-> FALSE]
+DnsDot(l) == [Dns(l) EXCEPT !.dot = TRUE]      \* as a constraint: written with a leading period
+Ip(b, p) == [v |-> "ip", labels |-> <<>>, b |-> b, p |-> p, dot |-> FALSE]
 (* frac: the validity dates are given with a sub-second part and a non-UTC offset (the instant of the day boundary stays) *)
 Ca(pl) == [isCa |-> [k |-> "Ca", pl |-> pl], nbDay |-> Day0, naDay |-> DayEnd, ku |-> <<5, 6>>, eku |-> <<>>, nc |-> NoNc, names |-> <<>>, frac |-> FALSE, kid |-> "sha256"]
 LeafRec == [isCa |-> [k |-> "NoCa", pl |-> NoPl], nbDay |-> Day0, naDay |-> DayEnd, ku |-> <<0>>, eku |-> <<>>, nc |-> NoNc,
@@ -69,6 +70,8 @@ DnsNames == { <<"www", "example", "test">>, <<"example", "test">>, <<"bad", "exa
               <<"wwwexample", "test">>, <<"other", "org">>, <<"test">> }
 NcDnsCases == { Case("nc", pos - 1, [Chain(n) EXCEPT ![pos].nc = NcOf(side, Dns(<<"example", "test">>)), ![n + 2].names = <<Dns(nm)>>], Now, "server") :
                   n \in 1..2, pos \in 1..2, side \in Sides, nm \in DnsNames }
+NcDotCases == { Case("nc", pos - 1, [Chain(n) EXCEPT ![pos].nc = NcOf(side, DnsDot(<<"example", "test">>)), ![n + 2].names = <<Dns(nm)>>], Now, "server") :
+                  n \in 1..2, pos \in 1..2, side \in Sides, nm \in DnsNames }
 NcIp4Cases == UNION { { Case("nc", pos - 1, [Chain(1) EXCEPT ![pos].nc = NcOf(side, Ip(V4Net, p)), ![3].names = <<Ip(a, 32)>>], Now, "server") :
                           pos \in 1..2, side \in Sides, a \in Addrs(V4Net, p) } : p \in Prefixes4 }
 NcIp6Cases == UNION { { Case("nc", pos - 1, [Chain(1) EXCEPT ![pos].nc = NcOf(side, Ip(V6Net, p)), ![3].names = <<Ip(a, 128)>>], Now, "server") :
@@ -98,7 +101,7 @@ KuSets == { <<>>, <<5>>, <<6>>, <<0, 5>>, <<0>>, <<0, 6>>, <<0, 6, 6>>, <<5, 6, 
 CertSignCases == { Case("certsign", pos - 1, [Chain(n) EXCEPT ![pos].ku = k], Now, "server") : n \in 0..2, pos \in 1..3, k \in KuSets }
 
 Wf(k) == k.pos + 1 <= Len(k.chain) /\ (k.grp \in {"caflag", "pathlen", "certsign", "nc"} => k.pos + 1 < Len(k.chain))
-Cases == { k \in OkCases \cup KidCases \cup CaFlagCases \cup CaFlagBareCases \cup FarTimeCases \cup PathLenCases \cup TimeCases \cup NcDnsCases \cup NcIp4Cases \cup NcIp6Cases \cup NcMixCases \cup NcMappedCases \cup NcTwoIpCases
+Cases == { k \in OkCases \cup KidCases \cup CaFlagCases \cup CaFlagBareCases \cup FarTimeCases \cup PathLenCases \cup TimeCases \cup NcDnsCases \cup NcDotCases \cup NcIp4Cases \cup NcIp6Cases \cup NcMixCases \cup NcMappedCases \cup NcTwoIpCases
                   \cup EkuCases \cup CertSignCases : Wf(k) }
 
 Init == c \in Cases /\ phase = "built" /\ verdict = FALSE
